@@ -162,53 +162,57 @@ theorem accLoop (ext : Ext) (v : String) (body : Stmt) (step : Val → Val → M
 
 /-! ### `data_to_bpm_events` -/
 
-def bpmEnv (D R : Val) (d : Option Val) (acc : List Val) (prev : Option Val) : Env :=
-  [("datas", some D), ("resolution", some R), ("data", d), ("events", some (.list (Val.ofList acc))), ("prev_event", prev)]
+def bpmEnv (D R CS C : Val) (d : Option Val) (acc : List Val) (prev : Option Val) : Env :=
+  [("datas", some D), ("resolution", some R), ("BPMEvents", some CS), ("BPMEvent", some C), ("data", d), ("events", some (.list (Val.ofList acc))),
+   ("prev_event", prev)]
 
 def bpmBody : Stmt :=
   (.seq (.assign "prev_event" (.ifExp (.var "events") (.index (.var "events") (.lit (.int (-1)))) (.lit .none)))
-   (.append "events" (.call "BPMEvent.from_parsed_data" (.econs (.var "data") (.econs (.var "prev_event") (.econs (.var "resolution") .enil))))))
+   (.append "events" (.call ".from_parsed_data" (.econs (.var "BPMEvent") (.econs (.var "data") (.econs (.var "prev_event") (.econs (.var "resolution") .enil)))))))
 
-theorem bpmBody_run (ext : Ext) (D R x : Val) (pv : Option Val) (acc : List Val) :
-    ∃ env', Runs ext bpmBody (bpmEnv D R (some x) acc pv)
-      (match ext "BPMEvent.from_parsed_data" [x, lastOr acc, R] with
-       | .ok e => .norm (bpmEnv D R (some x) (acc ++ [e]) (some (lastOr acc)))
+theorem bpmBody_run (ext : Ext) (D R CS C x : Val) (pv : Option Val) (acc : List Val) :
+    ∃ env', Runs ext bpmBody (bpmEnv D R CS C (some x) acc pv)
+      (match ext ".from_parsed_data" [C, x, lastOr acc, R] with
+       | .ok e => .norm (bpmEnv D R CS C (some x) (acc ++ [e]) (some (lastOr acc)))
        | .error err => .exc err env') := by
-  refine ⟨bpmEnv D R (some x) acc (some (lastOr acc)), ?_⟩
+  refine ⟨bpmEnv D R CS C (some x) acc (some (lastOr acc)), ?_⟩
   apply runs_of_exec 5
   intro k
-  have hp := prev_expr ext (bpmEnv D R (some x) acc pv) acc (by simp [bpmEnv, lookup])
-  generalize hE : ext "BPMEvent.from_parsed_data" [x, lastOr acc, R] = r
+  have hp := prev_expr ext (bpmEnv D R CS C (some x) acc pv) acc (by simp [bpmEnv, lookup])
+  generalize hE : ext ".from_parsed_data" [C, x, lastOr acc, R] = r
   unfold bpmBody
   simp only [exec, hp]
   cases r <;>
     simp [bpmEnv, setVar, lookup, evalExpr, bind, Except.bind, Val.toList?, appendVal, hE]
 
 /-- **`data_to_bpm_events`**: the fold of `BPMEvent.from_parsed_data` over the tempo data, each with the event built before it, then
-    the `BPMEvents` constructor on the collected list -/
-theorem dataToBpmEvents_tie (ext : Ext) (R : Val) (ds : List Val) :
+    the `BPMEvents` constructor on the collected list (`BPMEvent` / `BPMEvents` are the classes the enclosing function bound) -/
+theorem dataToBpmEvents_tie (ext : Ext) (R CS C : Val) (ds : List Val) :
     Returns ext Gen.Imp.dataToBpmEvents
-      (initEnv [("datas", .list (Val.ofList ds)), ("resolution", R)] Gen.Imp.dataToBpmEventsLocals)
-      (foldPrev (fun d p => ext "BPMEvent.from_parsed_data" [d, p, R]) ds [] >>= fun out =>
-        ext "BPMEvents(events=,resolution=)" [.list (Val.ofList out), R]) := by
-  have h0 : initEnv [("datas", .list (Val.ofList ds)), ("resolution", R)] Gen.Imp.dataToBpmEventsLocals
-      = [("datas", some (.list (Val.ofList ds))), ("resolution", some R), ("data", none), ("events", none), ("prev_event", none)] := by
+      (initEnv [("datas", .list (Val.ofList ds)), ("resolution", R), ("BPMEvents", CS), ("BPMEvent", C)] Gen.Imp.dataToBpmEventsLocals)
+      (foldPrev (fun d p => ext ".from_parsed_data" [C, d, p, R]) ds [] >>= fun out =>
+        ext "()(events=,resolution=)" [CS, .list (Val.ofList out), R]) := by
+  have h0 : initEnv [("datas", .list (Val.ofList ds)), ("resolution", R), ("BPMEvents", CS), ("BPMEvent", C)] Gen.Imp.dataToBpmEventsLocals
+      = [("datas", some (.list (Val.ofList ds))), ("resolution", some R), ("BPMEvents", some CS), ("BPMEvent", some C), ("data", none), ("events", none),
+         ("prev_event", none)] := by
     simp [initEnv, Gen.Imp.dataToBpmEventsLocals]
   rw [h0]
-  have hl := accLoop ext "data" bpmBody (fun d p => ext "BPMEvent.from_parsed_data" [d, p, R]) (bpmEnv (.list (Val.ofList ds)) R)
-    (by intro d acc pv x; simp [bpmEnv, setVar]) (fun x acc pv => bpmBody_run ext _ R x pv acc) ds [] none none
+  have hl := accLoop ext "data" bpmBody (fun d p => ext ".from_parsed_data" [C, d, p, R]) (bpmEnv (.list (Val.ofList ds)) R CS C)
+    (by intro d acc pv x; simp [bpmEnv, setVar]) (fun x acc pv => bpmBody_run ext _ R CS C x pv acc) ds [] none none
   have hinit : Runs ext (.assign "events" (.mkList .enil))
-      [("datas", some (.list (Val.ofList ds))), ("resolution", some R), ("data", none), ("events", none), ("prev_event", none)]
-      (.norm (bpmEnv (.list (Val.ofList ds)) R none [] none)) := by
+      [("datas", some (.list (Val.ofList ds))), ("resolution", some R), ("BPMEvents", some CS), ("BPMEvent", some C), ("data", none), ("events", none),
+       ("prev_event", none)]
+      (.norm (bpmEnv (.list (Val.ofList ds)) R CS C none [] none)) := by
     have := Runs.assign (ext := ext) (x := "events") (e := .mkList .enil) (v := .list .nil)
-      (env := [("datas", some (.list (Val.ofList ds))), ("resolution", some R), ("data", none), ("events", none), ("prev_event", none)])
+      (env := [("datas", some (.list (Val.ofList ds))), ("resolution", some R), ("BPMEvents", some CS), ("BPMEvent", some C), ("data", none), ("events", none),
+       ("prev_event", none)])
       (by simp [evalExpr, bind, Except.bind])
     simpa [setVar, bpmEnv, Val.ofList] using this
-  have hfor : ∀ r, Runs ext (.forVals "data" (Val.ofList ds) bpmBody .skip) (bpmEnv (.list (Val.ofList ds)) R none [] none) r →
-      Runs ext (.forIn "data" (.var "datas") bpmBody .skip) (bpmEnv (.list (Val.ofList ds)) R none [] none) r :=
+  have hfor : ∀ r, Runs ext (.forVals "data" (Val.ofList ds) bpmBody .skip) (bpmEnv (.list (Val.ofList ds)) R CS C none [] none) r →
+      Runs ext (.forIn "data" (.var "datas") bpmBody .skip) (bpmEnv (.list (Val.ofList ds)) R CS C none [] none) r :=
     fun r h => Runs.forIn_list (by simp [evalExpr, bpmEnv, lookup]) h
   unfold Gen.Imp.dataToBpmEvents
-  cases hF : foldPrev (fun d p => ext "BPMEvent.from_parsed_data" [d, p, R]) ds [] with
+  cases hF : foldPrev (fun d p => ext ".from_parsed_data" [C, d, p, R]) ds [] with
   | error err =>
     rw [hF] at hl
     obtain ⟨env', hl⟩ := hl
@@ -216,12 +220,12 @@ theorem dataToBpmEvents_tie (ext : Ext) (R : Val) (ds : List Val) :
   | ok out =>
     rw [hF] at hl
     obtain ⟨d', pv', hl⟩ := hl
-    have hcall : evalExpr ext (bpmEnv (.list (Val.ofList ds)) R d' out pv')
-        (.call "BPMEvents(events=,resolution=)" (.econs (.var "events") (.econs (.var "resolution") .enil)))
-        = ext "BPMEvents(events=,resolution=)" [.list (Val.ofList out), R] := by
+    have hcall : evalExpr ext (bpmEnv (.list (Val.ofList ds)) R CS C d' out pv')
+        (.call "()(events=,resolution=)" (.econs (.var "BPMEvents") (.econs (.var "events") (.econs (.var "resolution") .enil))))
+        = ext "()(events=,resolution=)" [CS, .list (Val.ofList out), R] := by
       simp [evalExpr, bpmEnv, lookup, bind, Except.bind, Val.toList?]
     simp only [bind, Except.bind]
-    cases hc : ext "BPMEvents(events=,resolution=)" [.list (Val.ofList out), R] with
+    cases hc : ext "()(events=,resolution=)" [CS, .list (Val.ofList out), R] with
     | error err =>
       rw [hc] at hcall
       exact ⟨_, Runs.seq hinit (Runs.seq (hfor _ hl) (Runs.ret_err hcall))⟩
@@ -231,11 +235,11 @@ theorem dataToBpmEvents_tie (ext : Ext) (R : Val) (ds : List Val) :
 
 /-! ### `data_to_anchor_events` -/
 
-def anEnv (D : Val) (d ev : Option Val) (acc : List Val) : Env :=
-  [("datas", some D), ("data", d), ("event", ev), ("events", some (.list (Val.ofList acc)))]
+def anEnv (D C : Val) (d ev : Option Val) (acc : List Val) : Env :=
+  [("datas", some D), ("AnchorEvent", some C), ("data", d), ("event", ev), ("events", some (.list (Val.ofList acc)))]
 
 def anBody : Stmt :=
-  (.seq (.assign "event" (.call "AnchorEvent.from_parsed_data" (.econs (.var "data") .enil)))
+  (.seq (.assign "event" (.call ".from_parsed_data" (.econs (.var "AnchorEvent") (.econs (.var "data") .enil))))
    (.append "events" (.var "event")))
 
 /-- the map: no previous event is involved -/
@@ -243,11 +247,11 @@ def mapM' (f : Val → M Val) : List Val → List Val → M (List Val)
   | [], acc => .ok acc
   | d :: ds, acc => f d >>= fun e => mapM' f ds (acc ++ [e])
 
-theorem anLoop (ext : Ext) (D : Val) (ds : List Val) :
+theorem anLoop (ext : Ext) (D C : Val) (ds : List Val) :
     ∀ (acc : List Val) (d ev : Option Val),
-      match mapM' (fun d => ext "AnchorEvent.from_parsed_data" [d]) ds acc with
-      | .ok out => ∃ d' ev', Runs ext (.forVals "data" (Val.ofList ds) anBody .skip) (anEnv D d ev acc) (.norm (anEnv D d' ev' out))
-      | .error err => ∃ env', Runs ext (.forVals "data" (Val.ofList ds) anBody .skip) (anEnv D d ev acc) (.exc err env') := by
+      match mapM' (fun d => ext ".from_parsed_data" [C, d]) ds acc with
+      | .ok out => ∃ d' ev', Runs ext (.forVals "data" (Val.ofList ds) anBody .skip) (anEnv D C d ev acc) (.norm (anEnv D C d' ev' out))
+      | .error err => ∃ env', Runs ext (.forVals "data" (Val.ofList ds) anBody .skip) (anEnv D C d ev acc) (.exc err env') := by
   induction ds with
   | nil =>
     intro acc d ev
@@ -255,21 +259,21 @@ theorem anLoop (ext : Ext) (D : Val) (ds : List Val) :
     exact ⟨d, ev, Runs.forVals_nil (Runs.skip _ _)⟩
   | cons x xs ih =>
     intro acc d ev
-    have hset : setVar (anEnv D d ev acc) "data" x = anEnv D (some x) ev acc := by simp [anEnv, setVar]
+    have hset : setVar (anEnv D C d ev acc) "data" x = anEnv D C (some x) ev acc := by simp [anEnv, setVar]
     simp only [mapM', Val.ofList, bind, Except.bind]
-    cases hE : ext "AnchorEvent.from_parsed_data" [x] with
+    cases hE : ext ".from_parsed_data" [C, x] with
     | error err =>
-      refine ⟨anEnv D (some x) ev acc, Runs.forVals_exit (by
+      refine ⟨anEnv D C (some x) ev acc, Runs.forVals_exit (by
         rw [hset]
         exact Runs.seq_stop (Runs.assign_err (by simp [evalExpr, anEnv, lookup, bind, Except.bind, Val.toList?, hE])) (by intro e; simp)) (Or.inr ⟨_, _, rfl⟩)⟩
     | ok e =>
-      have hb : Runs ext anBody (anEnv D (some x) ev acc) (.norm (anEnv D (some x) (some e) (acc ++ [e]))) := by
+      have hb : Runs ext anBody (anEnv D C (some x) ev acc) (.norm (anEnv D C (some x) (some e) (acc ++ [e]))) := by
         apply runs_of_exec 5
         intro k
         simp [anBody, exec, evalExpr, anEnv, lookup, setVar, bind, Except.bind, Val.toList?, hE, appendVal]
       have h2 := ih (acc ++ [e]) (some x) (some e)
       simp only []
-      cases hF : mapM' (fun d => ext "AnchorEvent.from_parsed_data" [d]) xs (acc ++ [e]) with
+      cases hF : mapM' (fun d => ext ".from_parsed_data" [C, d]) xs (acc ++ [e]) with
       | error err =>
         rw [hF] at h2
         obtain ⟨env'', h2⟩ := h2
@@ -280,26 +284,26 @@ theorem anLoop (ext : Ext) (D : Val) (ds : List Val) :
         exact ⟨d', ev', Runs.forVals_step (Or.inl (by rw [hset]; exact hb)) h2⟩
 
 /-- **`data_to_anchor_events`** is the map of `AnchorEvent.from_parsed_data` over the data, in order -/
-theorem dataToAnchorEvents_tie (ext : Ext) (ds : List Val) :
-    Returns ext Gen.Imp.dataToAnchorEvents (initEnv [("datas", .list (Val.ofList ds))] Gen.Imp.dataToAnchorEventsLocals)
-      ((mapM' (fun d => ext "AnchorEvent.from_parsed_data" [d]) ds []).map fun out => .list (Val.ofList out)) := by
-  have h0 : initEnv [("datas", .list (Val.ofList ds))] Gen.Imp.dataToAnchorEventsLocals
-      = [("datas", some (.list (Val.ofList ds))), ("data", none), ("event", none), ("events", none)] := by
+theorem dataToAnchorEvents_tie (ext : Ext) (C : Val) (ds : List Val) :
+    Returns ext Gen.Imp.dataToAnchorEvents (initEnv [("datas", .list (Val.ofList ds)), ("AnchorEvent", C)] Gen.Imp.dataToAnchorEventsLocals)
+      ((mapM' (fun d => ext ".from_parsed_data" [C, d]) ds []).map fun out => .list (Val.ofList out)) := by
+  have h0 : initEnv [("datas", .list (Val.ofList ds)), ("AnchorEvent", C)] Gen.Imp.dataToAnchorEventsLocals
+      = [("datas", some (.list (Val.ofList ds))), ("AnchorEvent", some C), ("data", none), ("event", none), ("events", none)] := by
     simp [initEnv, Gen.Imp.dataToAnchorEventsLocals]
   rw [h0]
-  have hl := anLoop ext (.list (Val.ofList ds)) ds [] none none
+  have hl := anLoop ext (.list (Val.ofList ds)) C ds [] none none
   have hinit : Runs ext (.assign "events" (.mkList .enil))
-      [("datas", some (.list (Val.ofList ds))), ("data", none), ("event", none), ("events", none)]
-      (.norm (anEnv (.list (Val.ofList ds)) none none [])) := by
+      [("datas", some (.list (Val.ofList ds))), ("AnchorEvent", some C), ("data", none), ("event", none), ("events", none)]
+      (.norm (anEnv (.list (Val.ofList ds)) C none none [])) := by
     have := Runs.assign (ext := ext) (x := "events") (e := .mkList .enil) (v := .list .nil)
-      (env := [("datas", some (.list (Val.ofList ds))), ("data", none), ("event", none), ("events", none)])
+      (env := [("datas", some (.list (Val.ofList ds))), ("AnchorEvent", some C), ("data", none), ("event", none), ("events", none)])
       (by simp [evalExpr, bind, Except.bind])
     simpa [setVar, anEnv, Val.ofList] using this
-  have hfor : ∀ r, Runs ext (.forVals "data" (Val.ofList ds) anBody .skip) (anEnv (.list (Val.ofList ds)) none none []) r →
-      Runs ext (.forIn "data" (.var "datas") anBody .skip) (anEnv (.list (Val.ofList ds)) none none []) r :=
+  have hfor : ∀ r, Runs ext (.forVals "data" (Val.ofList ds) anBody .skip) (anEnv (.list (Val.ofList ds)) C none none []) r →
+      Runs ext (.forIn "data" (.var "datas") anBody .skip) (anEnv (.list (Val.ofList ds)) C none none []) r :=
     fun r h => Runs.forIn_list (by simp [evalExpr, anEnv, lookup]) h
   unfold Gen.Imp.dataToAnchorEvents
-  cases hF : mapM' (fun d => ext "AnchorEvent.from_parsed_data" [d]) ds [] with
+  cases hF : mapM' (fun d => ext ".from_parsed_data" [C, d]) ds [] with
   | error err =>
     rw [hF] at hl
     obtain ⟨env', hl⟩ := hl
